@@ -261,6 +261,11 @@ func (runInfo *runInfoStruct) invokeMultiplyOperator(operator *ast.MultiplyOpera
 				runInfo.rv = nilValue
 				return
 			}
+			runInfo.rv = nilValue
+			if !runInfo.options.Debug {
+				// captures the panic of a length the runtime refuses to allocate
+				defer recoverFunc(runInfo)
+			}
 			runInfo.rv = reflect.ValueOf(strings.Repeat(str, int(count)))
 			return
 		}
